@@ -11,7 +11,7 @@ from shadow.values import SymSeq, SymBool, b_and, b_not, b_or, bterm, i_eq, sym_
 from spec import broadcast as SB
 
 PID = "C07"
-CLASSES = ["valid1", "validb", "validr", "foreign", "short", "long", "unknown", "undecodable"]
+CLASSES = ["valid1", "validb", "validr", "foreign", "short", "cut3", "long", "unknown", "undecodable"]
 FAMILY = {"valid1": "type1", "validb": "breeze", "validr": "runner"}
 MODEL = {"valid1": 0x030B, "validb": 0x0E01, "validr": 0x0C02}
 
@@ -47,6 +47,13 @@ def make_datagram(path, cls, tag):
         return d, None
     if cls == "short":
         return A.fresh_bytes(path, tag, 164), None
+    if cls == "cut3":
+        # a genuine type-1 broadcast that lost its last three bytes (162 = one step below 165 in the 159/165/168 family)
+        d = _bytes_ascii_name(path, tag, 162)
+        r = SB.decode(O, d, "type1")
+        path.assume(bterm(b_and(sym_eq(O.u(d, 0), 0xFE), sym_eq(O.u(d, 1), 0xF0), i_eq(r["model"], 0x030B), O.u(d, 133) <= 1,
+                                r["remaining_s"] < 86400)))
+        return d, None
     if cls == "long":
         return A.fresh_bytes(path, tag, 166), None
     if cls == "unknown":
@@ -162,7 +169,7 @@ def main(tier):
     results = H.run_cases("harness.C07", "run_case", cases, timeout_ms=120000 if tier == "quick" else 600000)
     nw = H.validate_call_witnesses(results, cmp=lambda exp, o: o.get("devices") == exp["devices"])
     H.finish(PID, tier, "model_checking", results, t0,
-             rule="sequences of datagram classes {valid type-1 / Breeze / Runner, foreign magic, one byte short, one byte long, unknown model, "
+             rule="sequences of datagram classes {valid type-1 / Breeze / Runner, foreign magic, one byte short, three bytes short, one byte long, unknown model, "
                   "undecodable field}; every byte of every datagram symbolic under its class predicate; one symbolic bit per callback "
                   "invocation decides whether the user's callback raises",
              bounds={"sequence length": 2 if tier == "quick" else 3, "ports": "1..2" if tier == "quick" else "1..4",
